@@ -201,11 +201,12 @@ def shard_random(n, sd):
     @settings(max_examples=n, database=None, deadline=None, phases=(Phase.generate,),
               suppress_health_check=list(HealthCheck), report_multiple_bugs=False)
     @given(st.lists(hostile_block(), min_size=3, max_size=6), options.pipeline_options([options.GREEDY] * 15 + [options.UBG_Z3]),
-           st.integers(0, 40))
-    def prop(blocks, argv, fault):
+           st.integers(0, 40), options.encoder_options())
+    def prop(blocks, argv, fault, enc):
         solver = "-solver" in argv
         if solver:
             blocks = [b[:18] for b in blocks[:3]]     # solver runs are 20-50x dearer; results depend on its time-outs
+            argv = argv + enc                         # Max-SMT runs also vary the encoder options
         # the containment comparison needs a deterministic back-end, so faults are only injected under -greedy
         for f in check_document(blocks, argv, stats, "random", with_fault=(fault if fault < 6 and not solver else None)):
             stats.fail(f)
